@@ -64,6 +64,37 @@ CHECKS = {
         technique="Lean 4 proof over regenerated bounds predicates (BitVec 64) + compiled-program correspondence",
         ref="§5 C06",
     ),
+    "C08": dict(
+        text=("Proof (Lean 4) about the store of the L2 evaluator (holders = bindings to a location + path): a write through one holder never "
+              "changes what a holder of another location reads (write_other_loc), a root holder reads back what was written, allocation "
+              "is fresh and disturbs nobody; storing into a list element changes that element only; a declaration, a value parameter and "
+              "a for-each variable are bound to FRESH locations holding copies (decl_fresh, decl_independent, value_param_fresh, "
+              "foreach_copies) while a Referenz parameter is bound to exactly the caller's location and path (ref_param_alias), so the "
+              "same variable passed twice yields two parameters with one location (ref_twice_same). Tie (T-corr through the real "
+              "compiler): a systematic matrix holder type {Text, Zahlen Liste, Text Liste, Kombination, Variable} x copy operation "
+              "{initialise, assign, value arg, Referenz arg, same variable twice, Referenz+value, global touched by the callee "
+              "(Referenz / value / value read-only), Referenz forwarded, return, store into list, assign to element, element and field "
+              "as Referenz, for-each variable, for-each operand reassigned in the body} x mutation, mutating either side and printing "
+              "every holder (232 programs), plus random programs with Referenz parameters; compared with the evaluator."),
+        note=TB + "Code generator and runtime (deep-copy functions, claim-or-copy of temporaries) are reached by correspondence only. "
+             "Lists of lists are outside (C02 findings).",
+        technique="Lean 4 proof about the evaluator's store + exhaustive aliasing matrix and random programs through the real compiler",
+        ref="§5 C08",
+    ),
+    "C11": dict(
+        text=("Proof (Lean 4): the evaluation rules have no optimisation level or link mode (one_behaviour), and the one lowering the code "
+              "generator itself changes with the level — passing a constant value parameter without a copy at -O 2 — is unobservable "
+              "exactly when no effect of the callee writes through a holder of the argument's location (nocopy_unobservable, by induction "
+              "over arbitrary sequences of writes and allocations), with the converse witness aliased_write_seen (the defect that was "
+              "found this way and repaired). Tie: every program is compiled under the configurations -O 0/1/2 x {modules linked into one "
+              "LLVM module | every module an object of its own} x {list definitions linked in | as object} (quick: 5, thorough: all 12) "
+              "and all runs must agree with each other on stdout, stderr and exit status and with the evaluator: aliasing matrix incl. "
+              "read-only parameters, operator matrix, random programs, random programs split into two modules."),
+        note=TB + "LLVM's optimisation passes and the linker are trusted, not modelled (partial); 'modules kept separate' exists only "
+             "behind the verif hook compiler.VerifCompileSeparate because no kddp command line compiles an imported module on its own.",
+        technique="Lean 4 proof (non-interference of the store) + differential compilation across all optimisation levels and link modes",
+        ref="§5 C11",
+    ),
     "C12": dict(
         text=("Proof (Lean 4) over byte-level L1 models of utf8.c, operators.c, ddptypes.c and the compiler's text iteration: for ALL "
               "scalar values except U+0000 (case split on the four encoding ranges, no enumeration) decode∘encode = id, utf8_num_bytes / "
@@ -205,7 +236,7 @@ def main():
         f.write("\n")
 
 
-HOOK_COMMITS = ["b62e2a9"]
+HOOK_COMMITS = ["b62e2a9", "3a96dd6"]
 
 if __name__ == "__main__":
     main()
